@@ -80,12 +80,13 @@ pub open spec fn sum_lens(s: Seq<usize>, n: int) -> int decreases n { if n <= 0 
     u.extracted_fn(hnd, "add_mem_region", within=span2, sig_rw=MEMSIG, body_rw=MEMRW, contract="""
         requires mappings_ok(old(self).mappings@), region.memory_size > 0, region.user_addr + region.memory_size <= u64::MAX, region.guest_phys_addr + region.memory_size <= u64::MAX
         ensures
-            r is Ok ==> final(self).atomic_mem.view@ == old(self).atomic_mem.view@.push(RegionDesc { gpa: region.guest_phys_addr, size: region.memory_size, file: file.id@, off: region.mmap_offset })
+            r is Ok ==> final(self).atomic_mem.view@ == old(self).atomic_mem.view@.push(RegionDesc { gpa: region.guest_phys_addr, size: region.memory_size, file: file.id@, off: region.mmap_offset, logged: final(self).atomic_mem.view@.last().logged })
                 && final(self).mappings@ == old(self).mappings@.push(AddrMapping { vmm_addr: region.user_addr, size: region.memory_size, gpa_base: region.guest_phys_addr })
                 && final(self).backend.updates@ == old(self).backend.updates@.push(final(self).atomic_mem.view@), // [C13] exactly the accepted region, backed by the passed file at mmap_offset; backend notified once
             r is Ok ==> mappings_ok(final(self).mappings@), // [C05,C13] the table invariant the translation relies on
             r is Err ==> final(self).mappings@ == old(self).mappings@, // [C13] a failed update leaves the translation table intact
-            r is Err ==> final(self).atomic_mem.view@ == old(self).atomic_mem.view@, // [C13:mem-intact] ... and the guest memory""")
+            r is Err ==> final(self).atomic_mem.view@ == old(self).atomic_mem.view@, // [C13:mem-intact] ... and the guest memory
+            (r is Ok && old(self).atomic_mem.view@.len() > 0 && all_logged(old(self).atomic_mem.view@)) ==> all_logged(final(self).atomic_mem.view@), // [C15:log-kept] logging stays in force for all guest memory across memory-table changes""")
     u.extracted_fn(hnd, "remove_mem_region", within=span2, sig_rw=MEMSIG, body_rw=MEMRW, contract="""
         ensures
             r is Ok ==> (exists|i: int| 0 <= i < old(self).atomic_mem.view@.len() && old(self).atomic_mem.view@[i].gpa == region.guest_phys_addr
